@@ -25,11 +25,11 @@ func minimiseAndRecord(cfg poolCfg, pc *propCfg, p *plan.Plan, class string, fir
 		}
 		tries++
 		r := runOne(cfg, q, false)
-		return classOf(r) == class
+		return sameClass(classOf(r), class)
 	}
 	// the original must reproduce alone in a fresh process first
 	r0 := runOne(cfg, p, false)
-	if classOf(r0) != class {
+	if !sameClass(classOf(r0), class) {
 		return "", false
 	}
 	cur := p.Clone()
@@ -46,7 +46,7 @@ func minimiseAndRecord(cfg poolCfg, pc *propCfg, p *plan.Plan, class string, fir
 		}
 	}
 	final := runOne(cfg, cur, false)
-	if classOf(final) != class {
+	if !sameClass(classOf(final), class) {
 		cur = p
 		final = r0
 	}
@@ -64,7 +64,7 @@ func minimiseAndRecord(cfg poolCfg, pc *propCfg, p *plan.Plan, class string, fir
 	var back replayFile
 	json.Unmarshal(b2, &back)
 	again := runOne(cfg, back.Plan, false)
-	if classOf(again) != class || again.Digest != final.Digest {
+	if !sameClass(classOf(again), class) || again.Digest != final.Digest {
 		return path, false
 	}
 	fmt.Printf("minimised seed %d in %d candidate runs: %d->%d ops, %d->%d faults, %d->%d tape entries, %d->%d source lines\n",
@@ -299,4 +299,15 @@ func reduceSources(p *plan.Plan, holds func(*plan.Plan) bool) *plan.Plan {
 		}
 	}
 	return p
+}
+
+// sameClass: two race reports of one episode are the same violation even when
+// the detector names a different pair of accesses (which pair it reports first
+// depends on its shadow-cell history, i.e. on what the process ran before).
+func sameClass(a, b string) bool {
+	if a == b {
+		return true
+	}
+	i, j := strings.Index(a, ".race:"), strings.Index(b, ".race:")
+	return i > 0 && j > 0 && a[:i] == b[:j]
 }
